@@ -640,7 +640,20 @@ impl World {
                     // the event is stamped before the drop so that wake-ups caused by
                     // the drop follow it in the trace
                     self.push(Ev::RefDrop { run, id });
-                    drop(fnref);
+                    if self.polling.get().is_some() {
+                        // inside a poll: a panic unwinds through the library into the
+                        // driver's catch_unwind
+                        drop(fnref);
+                    } else if let Err(p) = std::panic::catch_unwind(std::panic::AssertUnwindSafe(move || drop(fnref))) {
+                        let msg = if let Some(s) = p.downcast_ref::<&str>() {
+                            s.to_string()
+                        } else if let Some(s) = p.downcast_ref::<String>() {
+                            s.clone()
+                        } else {
+                            "<non-string panic>".to_string()
+                        };
+                        self.push(Ev::Panic { run, msg: format!("in FnRef::drop: {msg}") });
+                    }
                 }
             }
             Action::ForgetRef(id) => {
